@@ -60,7 +60,7 @@ var defs = map[string]map[string]fieldDef{
 		"trafficClass":                 {0, 0, nil},
 		"disableInitialPayloadWait":    {false, false, []any{true}},
 		"initialPayloadWaitTimeout":    {"0s", "250ms", []any{"1ms", "20ms", "1s"}},
-		"initialPayloadWaitBufferSize": {0, 1440, []any{1, 64, 65536}},
+		"initialPayloadWaitBufferSize": {0, 1440, []any{1, 64, 65536, 1 << 20}},
 	},
 	"udpl": {
 		"pathMTUDiscovery":    {"", "default", pmtudAlts},
@@ -666,7 +666,28 @@ func (w *world) validate() (vs []violation) {
 	// Shadowsocks 2022 NAT timeout no shorter than the replay window; MTU at least 1280;
 	// documented ranges of the UDP tuning fields
 	for _, s := range w.servers {
+		// negative sizes and durations have no meaning: refused ("negative initial payload wait ...")
+		for i, l := range s.tcp {
+			if d, ok := l.f["initialPayloadWaitTimeout"]; ok && d.Mode == mValue {
+				if dur, err := time.ParseDuration(d.Val.(string)); err != nil {
+					panic(err)
+				} else if dur < 0 {
+					add("range", "server %s tcp listener %d initialPayloadWaitTimeout %s", s.name, i, dur)
+				}
+			}
+			if d, ok := l.f["initialPayloadWaitBufferSize"]; ok && d.Mode == mValue && d.Val.(int) < 0 {
+				add("range", "server %s tcp listener %d initialPayloadWaitBufferSize %d", s.name, i, d.Val)
+			}
+		}
+		if d, ok := s.f["slidingWindowFilterSize"]; ok && d.Mode == mValue && d.Val.(int) < 0 {
+			add("range", "server %s slidingWindowFilterSize %d (unsigned field)", s.name, d.Val)
+		}
 		for i, l := range s.udp {
+			if d, ok := l.f["natTimeout"]; ok && d.Mode == mValue && !s.is2022() {
+				if dur, err := time.ParseDuration(d.Val.(string)); err == nil && dur < 0 {
+					add("range", "server %s udp listener %d natTimeout %s", s.name, i, dur)
+				}
+			}
 			if d, ok := l.f["natTimeout"]; ok && d.Mode == mValue {
 				dur, err := time.ParseDuration(d.Val.(string))
 				if err != nil {
@@ -697,6 +718,9 @@ func (w *world) validate() (vs []violation) {
 		for _, c := range w.clients {
 			if c.udp && (c.mtu == nil || *c.mtu < minMTU) {
 				add("mtu", "client %s mtu %v with UDP enabled", c.name, deref(c.mtu))
+			}
+			if d, ok := c.f["slidingWindowFilterSize"]; ok && d.Mode == mValue && d.Val.(int) < 0 {
+				add("range", "client %s slidingWindowFilterSize %d (unsigned field)", c.name, d.Val)
 			}
 		}
 	}
